@@ -996,7 +996,53 @@ func checkC12(c *Ctx) {
 				}
 			}
 		})
-		if exclLoad == nil || containsIf == nil || len(overrides) == 0 {
+		// the exclusion test may sit in a predicate helper of the package: excluded(ip) ranges over the whole list, answers
+		// true under a Contains hit on its parameter and false after the loop; the overrides then sit behind its false edge
+		var viaHelper *ssa.Call
+		if (exclLoad == nil || containsIf == nil) && len(overrides) > 0 {
+			eachInstr(f, func(in ssa.Instruction) {
+				call, ok := in.(*ssa.Call)
+				if !ok || viaHelper != nil {
+					return
+				}
+				hc := helperCallee(f, &call.Call)
+				if hc == nil || !isBoolType(call.Type()) {
+					return
+				}
+				argOK := false
+				for _, a := range call.Call.Args {
+					if strings.Contains(pathOf(a), "Ipv4Addr") {
+						argOK = true
+					}
+				}
+				loads, hit := false, false
+				eachInstr(hc, func(in2 ssa.Instruction) {
+					if u, ok := in2.(*ssa.UnOp); ok && u.Op == token.MUL {
+						if o, fld, ok := fieldOwner(u.X); ok && o == "regprocessor.RegProcessor" && fld == "exclusionsFromOverride" {
+							loads = true
+						}
+					}
+					if ret, ok := in2.(*ssa.Return); ok && len(ret.Results) == 1 {
+						if cv, isC := constOf(returnedValue(ret, 0, nil)); isC && cv.String() == "true" {
+							if guardedM(hc, ret, func(cnd string, pol bool) bool { return pol && strings.Contains(cnd, ".Contains(") }) {
+								hit = true
+							}
+						}
+					}
+				})
+				if argOK && loads && hit && anyContainsHelperRange(hc) {
+					viaHelper = call
+				}
+			})
+		}
+		if viaHelper != nil {
+			for _, ov := range overrides {
+				g := guardedM(f, ov, func(cnd string, pol bool) bool { return cnd == pathOf(viaHelper) && !pol })
+				r.Check(g, "C12.7", "processBdReq: exclusion loop precedes the address override", ov.Pos(), fnName(f), "behind the false edge of "+firstN(pathOf(viaHelper), 60),
+					"a path overrides the phantom address without the exclusion test having answered 'not excluded'")
+			}
+			r.OK("C12.7", "processBdReq: every configured exclusion is consulted", viaHelper.Pos(), "the predicate helper ranges over the whole exclusion list and answers true on the first Contains hit")
+		} else if exclLoad == nil || containsIf == nil || len(overrides) == 0 {
 			r.Unk("C12.7", "processBdReq: exclusion loop and address overrides", f.Pos(), fnName(f), fmt.Sprintf("exclusion load %v, Contains test %v, %d override store(s)", exclLoad != nil, containsIf != nil, len(overrides)))
 		} else {
 			for _, ov := range overrides {
@@ -1147,4 +1193,24 @@ func isRespField(v ssa.Value, base string) bool {
 	}
 	fa, isFA := v.(*ssa.FieldAddr)
 	return base == "" || (isFA && pathOf(fa.X) == base)
+}
+
+// anyContainsHelperRange: every If in the loop body of h that precedes the Contains test is the range test itself (no
+// entry of the list is skipped by another condition).
+func anyContainsHelperRange(h *ssa.Function) bool {
+	n := 0
+	ok := true
+	for _, b := range h.Blocks {
+		iff, isIf := b.Instrs[len(b.Instrs)-1].(*ssa.If)
+		if !isIf {
+			continue
+		}
+		n++
+		cnd, _ := normCond(iff.Cond)
+		if strings.Contains(cnd, ".Contains(") || strings.HasPrefix(b.Comment, "rangeindex.") || strings.HasPrefix(b.Comment, "rangeiter.") || strings.Contains(cnd, "next(range(") || strings.Contains(cnd, "phi:rangeindex") {
+			continue
+		}
+		ok = false
+	}
+	return ok && n >= 2
 }
